@@ -124,7 +124,7 @@ def subTok (cap : Bool) (outer : Nat) (e : Expr) (ti tb : Nat) : Nat := if paren
 mutual
 /-- rounds of the parser loop spent on the text of `e` (as items, as the body of a group) -/
 def Expr.toks (cap : Bool) : Expr → Nat × Nat
-  | .lit c => ((flat c).length, (flat c).length)
+  | .lit c => ((atomsOf c).length, (atomsOf c).length)
   | .cls _ => (1, 1)
   | .cat a b =>
     let ra := Expr.toks cap a
@@ -261,39 +261,48 @@ theorem pc_head (x : Nat) (hx : x ≠ 92) : HeadOK' (pc x) := by
     rw [pc_raw x hs]
     exact ⟨x, [], rfl, by omega⟩
 
-theorem R_escape_head (s : Str) (hne : s ≠ []) (hb : BsOK s) : HeadOK' (R (escapeSymbols s)) := by
-  rw [R_escapeSymbols s hb]
+theorem R_escape_head (as : List Atom) (hne : as ≠ []) (hb : AtomsOK as) : HeadOK' (R (escapeSymbols (untok as))) := by
+  rw [R_escapeSymbols as hb]
   split
   · exact ⟨92, [92], rfl, by decide⟩
   · rename_i hs
     rcases hb with hb | hb
     · exact absurd hb hs
-    · cases s with
+    · cases as with
       | nil => exact absurd rfl hne
-      | cons x xs =>
-        have hx : x ≠ 92 := fun hc => hb (by simp [hc])
-        simp only [List.flatMap_cons]
-        exact headOK'_append_left _ (pc_head x hx)
+      | cons a r =>
+        cases a with
+        | chr x =>
+          have hx : x ≠ 92 := (hb _ List.mem_cons_self).1
+          simp only [untok, List.flatMap_cons]
+          exact headOK'_append_left _ (pc_head x hx)
+        | cls k n =>
+          simp only [untok, List.flatMap_cons, pc_92]
+          exact ⟨92, _, rfl, by decide⟩
 
-theorem flatMap_pc_len (s : Str) (hb : 92 ∉ s) : s.length ≤ (s.flatMap pc).length := by
-  induction s with
-  | nil => simp
-  | cons x xs ih =>
-    have hx : x ≠ 92 := fun hc => hb (by simp [hc])
-    have hxs : 92 ∉ xs := fun hc => hb (List.mem_cons_of_mem _ hc)
-    obtain ⟨a, t, hp, _⟩ := pc_head x hx
-    have := ih hxs
-    simp only [List.flatMap_cons, List.length_append, List.length_cons, hp]
-    omega
+theorem flatMap_pc_len (as : List Atom) (hb : ∀ a ∈ as, AtomOK a) : as.length ≤ ((untok as).flatMap pc).length := by
+  induction as with
+  | nil => simp [untok]
+  | cons a r ih =>
+    have := ih (fun x hx => hb x (List.mem_cons_of_mem _ hx))
+    cases a with
+    | chr x =>
+      have hx : x ≠ 92 := (hb _ List.mem_cons_self).1
+      obtain ⟨c, t, hp, _⟩ := pc_head x hx
+      simp only [untok, List.flatMap_cons, List.length_append, List.length_cons, hp]
+      omega
+    | cls k n =>
+      simp only [untok, List.flatMap_cons, List.length_append, List.length_cons, pc_92, pc_letter, List.length_nil]
+      omega
 
-theorem R_escape_len (s : Str) (hb : BsOK s) : s.length ≤ (R (escapeSymbols s)).length := by
-  rw [R_escapeSymbols s hb]
+theorem R_escape_len (as : List Atom) (hb : AtomsOK as) : as.length ≤ (R (escapeSymbols (untok as))).length := by
+  rw [R_escapeSymbols as hb]
   split
   · rename_i hs; subst hs; decide
   · rename_i hs
     rcases hb with hb | hb
     · exact absurd hb hs
-    · exact flatMap_pc_len s hb
+    · exact flatMap_pc_len as hb
 
 theorem R_fmtLiteral (cap : Bool) (c : Cluster) (h : PlainBs c) :
     R (fmtLiteral (cfgPlain cap) c) = c.flatMap (fun g => R (escapeSymbols g.value)) := by
@@ -304,46 +313,21 @@ theorem literal_head (cap : Bool) (c : Cluster) (h : PlainBs c) : HeadOK (R (fmt
   cases c with
   | nil => exact headOK_nil
   | cons g gs =>
-    obtain ⟨s, hne, hb, _, rfl⟩ := h _ List.mem_cons_self
+    obtain ⟨as, hne, hb, rfl⟩ := h _ List.mem_cons_self
     simp only [List.flatMap_cons, value_ofStr]
-    exact (headOK'_append_left _ (R_escape_head s hne hb)).ok
+    exact (headOK'_append_left _ (R_escape_head as hne hb)).ok
 
-theorem literal_len (cap : Bool) (c : Cluster) (h : PlainBs c) : (flat c).length ≤ (R (fmtLiteral (cfgPlain cap) c)).length := by
+theorem literal_len (cap : Bool) (c : Cluster) (h : PlainBs c) : (atomsOf c).length ≤ (R (fmtLiteral (cfgPlain cap) c)).length := by
   rw [R_fmtLiteral cap c h]
   induction c with
-  | nil => simp [flat]
+  | nil => simp [atomsOf]
   | cons g gs ih =>
-    obtain ⟨s, hne, hb, _, rfl⟩ := h _ List.mem_cons_self
+    obtain ⟨as, hne, hb, rfl⟩ := h _ List.mem_cons_self
     have := ih (fun x hx => h x (List.mem_cons_of_mem _ hx))
-    have := R_escape_len s hb
-    simp only [flat, List.flatMap_cons, List.length_append, value_ofStr] at *
+    have := R_escape_len as hb
+    rw [atomsOf_cons as hb gs]
+    simp only [List.flatMap_cons, List.length_append, value_ofStr] at *
     omega
-
-/-- a literal that counts as a single code point is one grapheme of one code point -/
-theorem single_literal (c : Cluster) (h : PlainBs c) (hlen : (flat c).length = 1) :
-    ∃ x, c = [Grapheme.ofStr [x]] := by
-  cases c with
-  | nil => simp [flat] at hlen
-  | cons g gs =>
-    obtain ⟨s, hne, hb, _, rfl⟩ := h _ List.mem_cons_self
-    simp only [flat, List.flatMap_cons, value_ofStr, List.length_append] at hlen
-    have hs : 1 ≤ s.length := by
-      cases s with
-      | nil => exact absurd rfl hne
-      | cons a as => simp
-    cases gs with
-    | nil =>
-      match s, hs, hlen with
-      | [x], _, _ => exact ⟨x, rfl⟩
-      | _ :: _ :: _, _, hl => simp at hl
-    | cons g2 gs2 =>
-      obtain ⟨s2, hne2, _, _, rfl⟩ := h _ (List.mem_cons_of_mem _ List.mem_cons_self)
-      have : 1 ≤ s2.length := by
-        cases s2 with
-        | nil => exact absurd rfl hne2
-        | cons a as => simp
-      simp only [List.flatMap_cons, value_ofStr, List.length_append] at hlen
-      omega
 
 /-- the operand of `?` contributes exactly one quantifiable item -/
 theorem subOf3_single (cap : Bool) (e : Expr) (hwf : e.WF) (hnr : e.isRep = false) :
@@ -365,8 +349,8 @@ theorem subOf3_single (cap : Bool) (e : Expr) (hwf : e.WF) (hnr : e.isRep = fals
         | false => simp [parenQ, Expr.precedence, hh] at hp'
       simp only [Expr.isSingleCodepoint, cfgPlain, Bool.and_eq_true, beq_iff_eq] at hsc
       have hlen : (flat c).length = 1 := by rw [← Expr.charCount_flat]; exact hsc.1
-      obtain ⟨x, rfl⟩ := single_literal c hwf hlen
-      exact ⟨Pat.chr x, by simp [Expr.both, flat, value_ofStr], by simp [Quantifiable]⟩
+      obtain ⟨x, _, hat, _⟩ := single_literal c hwf hlen
+      exact ⟨Pat.chr x, by simp [Expr.both, hat, atomPat], by simp [Quantifiable]⟩
 
 theorem endsQS3_false (cap : Bool) (e : Expr) (hnr : e.isRep = false) : (!(parenQ cap 3 e) && e.endsQ cap) = false := by
   cases e with
@@ -407,16 +391,13 @@ theorem sub3_head' (cap : Bool) (fb : Bool) (e : Expr) (hwf : e.WF) (hnr : e.isR
         | false => simp [parenQ, Expr.precedence, hh] at hp'
       simp only [Expr.isSingleCodepoint, cfgPlain, Bool.and_eq_true, beq_iff_eq] at hsc
       have hlen : (flat c).length = 1 := by rw [← Expr.charCount_flat]; exact hsc.1
-      obtain ⟨x, rfl⟩ := single_literal c hwf hlen
-      obtain ⟨s, hne, hb, _, hs⟩ := hwf _ List.mem_cons_self
+      obtain ⟨x, rfl, _, _⟩ := single_literal c hwf hlen
+      obtain ⟨as, hne, hb, hs⟩ := hwf _ List.mem_cons_self
       simp only [fmtExpr]
       rw [R_fmtLiteral cap _ hwf]
-      simp only [List.flatMap_cons, List.flatMap_nil, List.append_nil, value_ofStr]
-      have : s = [x] := by
-        have := congrArg Grapheme.value hs
-        simpa [value_ofStr] using this.symm
-      subst this
-      exact R_escape_head [x] hne hb
+      simp only [List.flatMap_cons, List.flatMap_nil, List.append_nil]
+      rw [hs, value_ofStr]
+      exact R_escape_head as hne hb
 
 theorem both_snd_nonalt (cap : Bool) (e : Expr) (h : e.isAlt = false) : (e.both cap).2 = catList (e.both cap).1 := by
   cases e with
